@@ -355,6 +355,18 @@ class TreeLikelihoodModel(CallableModel):
 
         return log_p
 
+    def _underflow(self, log_p) -> bool:
+        """Has the unrescaled pass underflowed, or come close to it?
+
+        True if a site likelihood is zero (log_p infinite) or if, for some site, every
+        root partial is below ``threshold``: long before the site likelihood reaches the
+        denormal range, where the unrescaled pass returns a finite but inaccurate value.
+        """
+        if torch.any(torch.isinf(log_p)):
+            return True
+        root = self.partials[self.tree_model.postorder[-1][0]]
+        return bool(torch.any(torch.amax(root, dim=(-3, -2)) < self.threshold))
+
     def calculate_with_tip_partials(self, mats, frequencies, probs):
         if self.rescale:
             log_p = calculate_treelikelihood_discrete_rescaled(
@@ -375,7 +387,7 @@ class TreeLikelihoodModel(CallableModel):
                 probs,
             )
 
-            if torch.any(torch.isinf(log_p)):
+            if self._underflow(log_p):
                 self.rescale = True
                 log_p = calculate_treelikelihood_discrete_safe(
                     self.partials,
@@ -408,7 +420,7 @@ class TreeLikelihoodModel(CallableModel):
                 probs,
             )
 
-            if torch.any(torch.isinf(log_p)):
+            if self._underflow(log_p):
                 self.rescale = True
                 log_p = calculate_treelikelihood_tip_states_discrete_rescaled(
                     self.partials,
